@@ -50,6 +50,10 @@ func concreteTok(t string, i int) string {
 	case "w":
 		return fmt.Sprintf("word%d", i)
 	case "u":
+		if i%3 == 2 {
+			// text relayed from a system that does not speak UTF-8: the octets are the text
+			return fmt.Sprintf("caf\xe9%d\xff\xfe", i)
+		}
 		return fmt.Sprintf("wörd%dé", i)
 	case "e":
 		return "4.2.2"
